@@ -626,4 +626,74 @@ theorem sessionE_spec (H : SList → Nat) (B fuel : Nat) (hfuel : B < fuel + 1) 
   have := multiSessionE_spec H B fuel hfuel hB ds [se] (by simpa using hse) hi
   simpa [sessionE] using this
 
+/-! ## any schedule of concurrent writers -/
+
+/-- a rewrite only ever targets a list that exists at that moment (a filler rewrites lists it has written) -/
+def RewOK : FS → List WEff → Prop
+  | _, [] => True
+  | fs, .close d sh :: r => RewOK (appendShards fs d [sh]) r
+  | fs, .rewrite d :: r => fs d ≠ none ∧ RewOK fs r
+
+theorem default_stepOK (B : Nat) (fs : FS) (d : Dir) (h : fs d = none) : StepOK B fs (d, {}) :=
+  ⟨wfl_default d, by simp, by simp, by simp [filesAt, h], by simp [kidsAt, h]⟩
+
+theorem workersE_spec (B : Nat) : ∀ (ws : List WEff) (fs : FS), SInv B fs →
+    (workersE fs ws).1 = applyInstalls fs (workersE fs ws).2 ∧ Valid B fs (workersE fs ws).2 ∧
+    (RewOK fs ws → (workersE fs ws).1 = applyWrites fs (closesOf ws)) := by
+  intro ws
+  induction ws with
+  | nil => intro fs _; exact ⟨rfl, trivial, fun _ => rfl⟩
+  | cons e r ih =>
+    intro fs hi
+    cases e with
+    | close d sh =>
+      have hs := leaf_stepOK B fs d [sh] hi
+      obtain ⟨h1, h2, h3⟩ := ih (appendShards fs d [sh]) (by rw [appendShards_eq_set]; exact step_sinv B fs _ hs hi)
+      refine ⟨?_, ⟨hs, h2⟩, ?_⟩
+      · simp only [workersE, applyInstalls, List.foldl_cons]; rw [h1]; rfl
+      · intro hr
+        simp only [workersE, closesOf, applyWrites, List.foldl_cons]
+        exact h3 hr
+    | rewrite d =>
+      have hs : StepOK B fs (d, (fs d).getD {}) := by
+        cases hfd : fs d with
+        | none => simpa using default_stepOK B fs d hfd
+        | some l => simpa using same_stepOK B fs d l hi hfd
+      obtain ⟨h1, h2, h3⟩ := ih (fs.set d ((fs d).getD {})) (step_sinv B fs _ hs hi)
+      refine ⟨?_, ⟨hs, h2⟩, ?_⟩
+      · simp only [workersE, applyInstalls, List.foldl_cons]; rw [h1]; rfl
+      · intro hr
+        obtain ⟨hne, hr'⟩ := hr
+        simp only [workersE, closesOf]
+        have hnoop : fs.set d ((fs d).getD {}) = fs := by
+          cases hfd : fs d with
+          | none => exact absurd hfd hne
+          | some l => exact set_noop fs d l hfd
+        rw [hnoop] at h3 ⊢
+        exact h3 hr'
+
+/-- **Any schedule of the workers of a multi-writer call, then the parent's merges: valid.** -/
+theorem concurrentCallE_spec (H : SList → Nat) (B fuel : Nat) (hfuel : B < fuel + 1) (hB : 1 ≤ B) (ds : DS) (ws : List WEff)
+    (hse : ∀ w ∈ closesOf ws, w.1 ≠ [] ∧ w.1.length ≤ B) (hi : SInv B ds.fs) :
+    Valid B ds.fs (concurrentCallE H fuel ds ws).2 ∧
+    (RewOK ds.fs ws → (concurrentCallE H fuel ds ws).1 = session H fuel ds (closesOf ws) ∧
+      (session H fuel ds (closesOf ws)).fs = applyInstalls ds.fs (concurrentCallE H fuel ds ws).2) := by
+  obtain ⟨a1, a2, a3⟩ := workersE_spec B ws ds.fs hi
+  obtain ⟨hia, _⟩ := valid_sinv_mono B _ _ a2 hi
+  rw [← a1] at hia
+  have hdirs : ∀ d ∈ (closesOf ws).map (·.1), d ≠ [] ∧ d.length ≤ B := by
+    intro d hd; obtain ⟨w, hw, rfl⟩ := List.mem_map.mp hd; exact hse w hw
+  obtain ⟨m1, m2, m3⟩ := mergeSplitsE_spec H B fuel hfuel hB ((closesOf ws).map (·.1)) hdirs
+    (dedup (((closesOf ws).map (·.1)).map (fun d => d.headD 0))) (DS.mk (workersE ds.fs ws).1 ds.splits) hia
+  refine ⟨?_, ?_⟩
+  · simp only [concurrentCallE]
+    exact (valid_append B _ _ _).mpr ⟨a2, by rw [← a1]; exact m3⟩
+  · intro hr
+    have hE : (concurrentCallE H fuel ds ws).1 = session H fuel ds (closesOf ws) := by
+      simp only [concurrentCallE, session]; rw [m1, a3 hr]
+    refine ⟨hE, ?_⟩
+    rw [← hE]
+    simp only [concurrentCallE, applyInstalls_append]
+    rw [m2, a1]
+
 end Sedpack.Tree
